@@ -573,7 +573,7 @@ def flatten_conditionals(fn: ast.AST) -> None:
                         del seq[i + 1]
                         changed = True
                         continue
-                    if not st.orelse and not _terminates(st.body) and i + 2 == len(seq) and isinstance(seq[i + 1], (ast.Return, ast.Raise)) and not any(isinstance(x, (ast.For, ast.While, ast.Try, ast.With)) for b in st.body for x in ast.walk(b)) and len(st.body) <= 4:
+                    if not st.orelse and not _terminates(st.body) and i + 2 == len(seq) and isinstance(seq[i + 1], (ast.Return, ast.Raise)) and len(st.body) <= 4:
                         tail = seq[i + 1]
                         st.body = st.body + [_clone(tail)]
                         st.orelse = [tail]
@@ -714,6 +714,10 @@ def loops_to_comprehensions(fn: ast.AST) -> None:
             for k, a in enumerate(n.args):
                 if isinstance(a, ast.Starred) and isinstance(a.value, ast.ListComp):
                     a.value = ast.copy_location(ast.GeneratorExp(elt=a.value.elt, generators=a.value.generators), a.value)
+            if isinstance(n.func, ast.Name) and n.func.id in ('tuple', 'list', 'set') and len(n.args) == 1 and not n.keywords and isinstance(n.args[0], (ast.List, ast.Tuple)) and (n.func.id != 'set' or n.args[0].elts):
+                display = {'tuple': ast.Tuple, 'list': ast.List, 'set': ast.Set}[n.func.id]
+                kw = {} if display is ast.Set else {'ctx': ast.Load()}
+                return ast.copy_location(display(elts=n.args[0].elts, **kw), n)
             if isinstance(n.func, ast.Name) and n.func.id == 'list' and len(n.args) == 1 and not n.keywords and isinstance(n.args[0], ast.GeneratorExp):
                 return ast.copy_location(ast.ListComp(elt=n.args[0].elt, generators=n.args[0].generators), n)
             if isinstance(n.func, ast.Name) and n.func.id == 'set' and len(n.args) == 1 and not n.keywords and isinstance(n.args[0], ast.GeneratorExp):
@@ -874,8 +878,14 @@ def inline_temporaries(fn: ast.AST, only: typing.Optional[set] = None, sigs: typ
                 last = max(k for k, s in enumerate(later) if any(id(u) in {id(n) for n in ast.walk(s)} for u in uses))
                 span = later[:last + 1]
                 ok = True
+                evaluated: list = []
                 for s in span:
-                    for n in ast.walk(s):
+                    _postorder(s, evaluated)
+                cut = max(k for k, n in enumerate(evaluated) if any(n is u for u in uses))
+                loops_inside = any(isinstance(n, (ast.For, ast.While, ast.AsyncFor)) for s in span for n in ast.walk(s))
+                before = evaluated if loops_inside else evaluated[:cut]
+                for s in [None]:
+                    for n in before:
                         if isinstance(n, ast.Call):
                             # the base object itself is handed to / called upon by something that may re-bind its attributes
                             handed = [a for a in list(n.args) + [k.value for k in n.keywords]]
@@ -1340,6 +1350,23 @@ def split_rebound_parameters(fn: ast.AST) -> None:
 def _pure_value(e: ast.AST) -> bool:
     ok = (ast.Name, ast.Constant, ast.Attribute, ast.Subscript, ast.BinOp, ast.UnaryOp, ast.Compare, ast.BoolOp, ast.IfExp, ast.List, ast.Tuple, ast.Set, ast.Dict, ast.Load, ast.operator, ast.unaryop, ast.cmpop, ast.boolop, ast.expr_context, ast.Starred, ast.JoinedStr, ast.FormattedValue, ast.Slice)
     return all(isinstance(x, ok) for x in ast.walk(e)) and not any(_has_effect(x) for x in ast.walk(e))
+
+
+def split_tuple_assignments(fn: ast.AST) -> None:
+    """``a, b = (A, B)`` is ``a = A`` ; ``b = B`` when no target is read by a later element (and nothing is starred)."""
+    for seq in list(_blocks(fn)):
+        k = 0
+        while k < len(seq):
+            st = seq[k]
+            if isinstance(st, ast.Assign) and len(st.targets) == 1 and isinstance(st.targets[0], ast.Tuple) and isinstance(st.value, ast.Tuple) and len(st.targets[0].elts) == len(st.value.elts) and all(isinstance(t, ast.Name) for t in st.targets[0].elts) and not any(isinstance(e, ast.Starred) for e in st.value.elts):
+                names = [t.id for t in st.targets[0].elts]
+                if len(set(names)) == len(names) and not any(n in _names(e) for j, n in enumerate(names) for e in st.value.elts[j + 1:]) and not any(n in _names(st.value.elts[j]) for j, n in enumerate(names) if False):
+                    # also: an element must not read a target bound by an *earlier* element with the old value expected
+                    if not any(names[j] in _names(e) for j in range(len(names)) for e in st.value.elts[j + 1:]):
+                        seq[k:k + 1] = [ast.copy_location(ast.Assign(targets=[t], value=e), st) for t, e in zip(st.targets[0].elts, st.value.elts)]
+                        k += len(names)
+                        continue
+            k += 1
 
 
 def sort_independent_assignments(fn: ast.AST) -> None:
@@ -1819,6 +1846,7 @@ def normal_form(fn: ast.AST, sigs: typing.Optional[SignatureIndex] = None, owner
         canonical_tests(node)
         boolean_algebra(node)
         loops_to_comprehensions(node)
+        split_tuple_assignments(node)
         unfold_for_else(node)
         unfold_generator_loops(node)
         sink_returns(node)
@@ -1834,6 +1862,8 @@ def normal_form(fn: ast.AST, sigs: typing.Optional[SignatureIndex] = None, owner
         while inline_temporaries(node, sigs=sigs) and guard < 200:
             guard += 1
         for sub in [x for x in ast.walk(node) if x is not node and isinstance(x, FUNC)]:
+            flatten_conditionals(sub)
+            split_rebound_parameters(sub)
             guard = 0
             while inline_temporaries(sub, sigs=sigs) and guard < 100:
                 guard += 1
